@@ -4,7 +4,8 @@
 # (never to /repo itself, so that it can run while other work reads /repo), runs the check of its property (and any extra listed in
 # <dir>/also; for neutral/* every claimed check) with STV_REPO pointing at the scratch tree, and prints one line per seed.
 # The scratch worktrees live under /tmp and are removed on exit.
-cd /verif
+cd "$(dirname "$0")/.."
+V=$(pwd)
 J=4
 if [ "$1" = "-j" ]; then J=$2; shift 2; fi
 [ $# -gt 0 ] || set -- seeded/*
@@ -14,7 +15,7 @@ one() {
   [ -f "$d/patch.diff" ] || return 0
   W=$(mktemp -d /tmp/stv_mx.XXXXXX)
   git -C /repo worktree add --detach -f "$W/r" HEAD >/dev/null 2>&1 || { echo "$id WORKTREE-FAILS"; rm -rf "$W"; return 0; }
-  if ! git -C "$W/r" apply "/verif/$d/patch.diff" 2>/dev/null; then
+  if ! git -C "$W/r" apply "$V/$d/patch.diff" 2>/dev/null; then
     echo "$id PATCH-FAILS"
   else
     case "$d" in neutral/*|*/neutral/*) props="$ALL";; *) props="$prop $(cat "$d/also" 2>/dev/null)";; esac
